@@ -23,11 +23,13 @@ import (
 	"os"
 	"path/filepath"
 	"strings"
+	"sync"
 	"syscall"
 	"time"
 
 	"github.com/magisterquis/curlrevshell/lib/sstls"
 	"github.com/magisterquis/curlrevshell/verifx/ev"
+	"github.com/magisterquis/curlrevshell/verifx/rcall"
 	"github.com/magisterquis/curlrevshell/verifx/vos"
 )
 
@@ -36,6 +38,12 @@ func init() {
 }
 
 // c08Get calls the real GetCertificate under an optional crash plan.
+// c08Panics: panics of the program under test seen by c08Get.
+var c08Panics struct {
+	sync.Mutex
+	seen map[string]string
+}
+
 func c08Get(cache string, plan *vos.CrashPlan, after func(vos.Op, string)) (cert tls.Certificate, err error, crashed bool) {
 	vos.Reset()
 	vos.Plan = plan
@@ -46,7 +54,20 @@ func c08Get(cache string, plan *vos.CrashPlan, after func(vos.Op, string)) (cert
 				crashed = true
 				return
 			}
-			panic(p)
+			/* The program itself crashed on what it found (a crash is
+			not "the run fails with an error"): noted, reported by c08,
+			and treated as a failed run from here on. */
+			c08Panics.Lock()
+			if nil == c08Panics.seen {
+				c08Panics.seen = map[string]string{}
+			}
+			msg := fmt.Sprint(p)
+			if _, dup := c08Panics.seen[msg]; !dup {
+				b, _ := os.ReadFile(cache)
+				c08Panics.seen[msg] = fmt.Sprintf("cache file of %d bytes beginning %q", len(b), trunc80(string(b)))
+			}
+			c08Panics.Unlock()
+			err = fmt.Errorf("the program panicked: %v", p)
 		}
 	}()
 	cert, err = sstls.GetCertificate("", nil, nil, 0, cache)
@@ -129,6 +150,21 @@ func c08(r *ev.Result, tier string) {
 	v := func(sig, what string, c c08Case) {
 		r.Violate(ev.Violation{Signature: sig, What: what, Kind: "c08", Replay: c})
 	}
+	defer func() {
+		c08Panics.Lock()
+		defer c08Panics.Unlock()
+		for _, pn := range rcall.TakePanics() {
+			if nil == c08Panics.seen {
+				c08Panics.seen = map[string]string{}
+			}
+			if _, dup := c08Panics.seen[pn.Value]; !dup {
+				c08Panics.seen[pn.Value] = "cache handed to sstls.Listen / hsrv.New (the Listen-level and server-level seams); stack: " + trunc300(pn.Stack)
+			}
+		}
+		for msg, where := range c08Panics.seen {
+			r.Violate(ev.Violation{Signature: "program-crashed/" + trunc80(msg), What: fmt.Sprintf("sstls.GetCertificate panicked (%s) on a %s: a damaged cache makes the run fail with an error, not crash", msg, where), Kind: "c08seam", Replay: map[string]string{"panic": msg, "cache": where}})
+		}
+	}()
 	oldMask := syscall.Umask(0o022)
 	defer syscall.Umask(oldMask)
 
@@ -508,7 +544,7 @@ func c08RunHistory(base string, hist []string, v func(string, string, c08Case)) 
 }
 
 func c08Replay(kind string, raw json.RawMessage) int {
-	if "c08listen" == kind || "c08server" == kind || "c08werr" == kind || "c08path" == kind {
+	if "c08seam" == kind || "c08listen" == kind || "c08server" == kind || "c08werr" == kind || "c08path" == kind {
 		fmt.Println("findings of the Listen-level and server-level seams are replayed by re-running ./run C08 quick; the history or the damage is in the artefact")
 		return 2
 	}
